@@ -225,13 +225,14 @@ func sameAddrs(a, b []types.Address) bool {
 // Relate applies the oracles that compare an accepted neighbour y with its honest original x.
 // ref is the outcome of x itself; signers the addresses of the keys that signed x.
 //
-// Reading for multisig transactions: the "sender" of rule (c)/(d) is the pair
-// (Sender() = multisig address, vector of recovered signers).  The list of
-// member signatures is by construction not covered by the signed hash, so a
-// multisig transaction whose signature list is permuted or whose wallet address
-// is replaced is another transaction with the same hash; the property text only
-// speaks of recovered signers, therefore such a neighbour is counted
-// (rebind "address" / "members") but not reported.
+// Reading for multisig transactions: the signed hash covers neither the member
+// signature list nor the wallet address.
+//   - same hash, same Sender() (wallet address), recovered signers a permutation /
+//     sub-list of the honest ones: reported as same-hash-second-encoding (strict
+//     reading: the transaction was rewritten into a different valid encoding);
+//     rebind == "members" lets the caller give it its own narrow signature.
+//   - same hash, same recovered signers, ANOTHER wallet address: a different sender,
+//     outside the property text; counted only (rebind == "address").
 func Relate(x, y []byte, ref, o *Outcome, signers []types.Address) (viols []Viol, rebind string) {
 	if !o.Accepted || bytes.Equal(x, y) {
 		return nil, ""
@@ -243,7 +244,10 @@ func Relate(x, y []byte, ref, o *Outcome, signers []types.Address) (viols []Viol
 		case sameAddrs(o.Signers, ref.Signers):
 			rebind = "address" // multisig wallet address replaced, member signatures untouched
 		case o.Sender == ref.Sender && len(o.Signers) > 0 && subset(o.Signers, ref.Signers):
-			rebind = "members" // multisig member signatures permuted / dropped
+			// multisig member signatures permuted / dropped: strict reading, this IS a second valid
+			// encoding of the same transaction (same signed hash, same sender, different bytes).
+			rebind = "members"
+			viols = append(viols, Viol{"same-hash-second-encoding", fmt.Sprintf("multisig member list rewritten (members reordered or dropped; recovered signers %s instead of %s): a different byte string is accepted with the same signed hash %x and the same sender %s", Addrs(o.Signers), Addrs(ref.Signers), o.Hash[:], o.Sender.String())})
 		}
 		return
 	}
